@@ -203,6 +203,54 @@ def run(tier: str, seed: int) -> CompResult:
                 config._ensure_unconfigure()
     finally:
         os.chdir(cwd)
+    # ---- which execution environments trigger file synchronisation: the real `NodeManager.rsync()` with the transfer stubbed out
+    import xdist.workermanage as WM
+
+    calls: list = []
+    orig_add, orig_send = WM.HostRSync.add_target_host, WM.HostRSync.send
+    WM.HostRSync.add_target_host = lambda self, gateway, finished=None: calls.append(("add", gateway.id))  # type: ignore[method-assign]
+    WM.HostRSync.send = lambda self, *a, **k: calls.append(("send",))  # type: ignore[method-assign]
+
+    class _Exec:
+        def waitclose(self) -> None:
+            pass
+
+    class _Gw2(_Gw):
+        def remote_exec(self, source: Any) -> Any:
+            calls.append(("exec",))
+            return _Exec()
+
+    os.chdir(base)
+    try:
+        for specstr in ["popen", "popen//chdir=abc", "socket=1.2.3.4:8888", "ssh=h", "popen//python=python3", "ssh=h//chdir=rem"]:
+            config = _prepareconfig(["-p", "no:cacheprovider", "-p", "no:terminal", "--rsyncdir", str(base / "rootA")], None)
+            try:
+                spec = execnet.XSpec(specstr)
+                nm = NodeManager(config, specs=[spec])
+                gw2 = _Gw2(spec, "gw0")
+                calls.clear()
+                try:
+                    nm.rsync(gw2, str(base / "rootA"))
+                except Exception as e:  # noqa: BLE001
+                    res.violations.append(Violation("C19", "pure.remote", f"execution environment {specstr!r}: rsync() raised {type(e).__name__}: {e}",
+                                                    "rsync-raised", [json.dumps({"spec": specstr})], {}))
+                    continue
+                synced = any(c[0] in ("add", "send") for c in calls)
+                local = bool(spec.popen) and not spec.chdir
+                res.evaluations += 1
+                res.hit(f"rsync:{'local' if local else 'remote'}:{'synced' if synced else 'not'}")
+                if local and synced:
+                    res.violations.append(Violation("C19", "pure.remote", f"the purely local execution environment {specstr!r} triggered file synchronisation",
+                                                    "local-worker-synced", [json.dumps({"spec": specstr})], {}))
+                if not local and not synced:
+                    res.violations.append(Violation("C19", "pure.remote", f"the remote/chdir execution environment {specstr!r} was not synchronised "
+                                                    "(its arguments are mapped into roots that do not exist there)", "remote-worker-not-synced",
+                                                    [json.dumps({"spec": specstr})], {}))
+            finally:
+                config._ensure_unconfigure()
+    finally:
+        WM.HostRSync.add_target_host, WM.HostRSync.send = orig_add, orig_send  # type: ignore[method-assign]
+        os.chdir(cwd)
     model = run_driver("pure", lines)
     res.evaluations += len(lines)
     for l, m, i in zip(lines, model, impl):
